@@ -276,6 +276,14 @@ class VCoro(V):
         self.label = label
 
 
+class VRaw(V):
+    """a raw z3 term of the abstract Redis store, visible to specifications only (equality)"""
+    kind = "raw"
+
+    def __init__(self, term):
+        self.term = term
+
+
 class VStar(V):
     """`*expr` in a call where expr is a symbolic iterable (passed through to contracts as one item)"""
     kind = "star"
